@@ -85,7 +85,10 @@ def main() -> int:
     signal.signal(signal.SIGPROF, _alarm)
     global TIMED_OUT
     case_timeout = int(getattr(mod, "CASE_TIMEOUT_S", 240))
+    parent = os.getppid()
     for idx in job["indices"]:
+        if os.getppid() != parent:
+            return 4  # the orchestrating check process is gone: do not linger as an orphan
         emit({"ev": "start", "idx": idx})
         rng = case_rng(job["prop"], job["seed"], idx)
         t0 = time.time()
